@@ -362,9 +362,8 @@ from_tokens = Fn(T, 'from_tokens', impl='Command', ret='r', pre_rewrites=ANY,
                                 'if has_redirect_from { let w_ = choose|i: int| 0 <= i < tokens_new@.len() && is_lt(#[trigger] tokens_new@[i]); assert(lt_at(tokens_new@, w_, true)); }',
            # the word taken off the command as the input-redirection operator is an UNQUOTED `<` / `<<<`: a quoted, escaped or expanded `<` is an argument
            'before-text:redirects_from_type = tokens_new.remove(idx).1;':
-               'LABEL:C01+C13+C04+C11.from_tokens.only_an_unquoted_lt_is_removed_as_operator: assert(idx < tokens_new@.len() && is_lt(tokens_new@[idx as int]));',
-           # C04: redirections are applied left to right -- the operator taken off in each round is the leftmost one still there, so the last one on the line is the one in effect
-           'after-text:vx_position_lt(&tokens_new, true) {':
+               'LABEL:C01+C13+C04+C11.from_tokens.only_an_unquoted_lt_is_removed_as_operator: assert(idx < tokens_new@.len() && is_lt(tokens_new@[idx as int])); ;;; '
+               # C04: redirections are applied left to right -- the operator taken off in each round is the leftmost one still there, so the last one on the line is the one in effect
                'LABEL:C04.from_tokens.input_redirections_are_taken_from_left_to_right: assert forall|j: int| 0 <= j < idx implies !is_lt(#[trigger] tokens_new@[j]) by { assert(!lt_at(tokens_new@, j, true)); }',
            'before-call:tokens_to_redirections': 'lemma_tsv_props(tokens_new@, tokens@);',
            'after-call:split_glued_input_redirections': 'lemma_tsv_props(tokens_new@, tokens@);'},
